@@ -2283,7 +2283,9 @@ func (k *Kernel) loadInitialVotingView(ctx context.Context, s *kState) error {
 		vs = k.initialValSet
 	} else {
 		// During initialization, we have set the committing block on the kState value.
-		vs = s.CommittingHeader.ValidatorSet
+		// The voting height is one past the committing header's height,
+		// so it uses the validator set that header declares for the next height.
+		vs = s.CommittingHeader.NextValidatorSet
 	}
 
 	if len(vs.Validators) == 0 {
